@@ -24,7 +24,7 @@ NOT_C02 = {"R.cred-type", "R.bs-without-be", "R.tb-not-supported", "R.at-clear-d
 # deviations applied by this harness around the simulator (X. = expectation-side)
 HARNESS_FAULTS = ["X.origin-is-proper-prefix-of-expected", "X.origin-is-infix-of-expected", "X.alg-not-allowed",
                   "X.alg-unregistered-not-allowed", "X.uv-clear-required-up-waived", "X.origin-list-lacks-it",
-                  "X.expected-origin-has-trailing-slash", "X.expected-origin-has-surrounding-space",
+                  "X.expected-origin-has-trailing-slash", "X.expected-origin-has-surrounding-space", "X.expected-origin-has-explicit-default-port",
                   "X.alg-list-empty", "X.alg-list-empty-tuple", "X.expected-origin-ipv6-literal-read-as-glob", "X.expected-origin-star-read-as-glob", "X.expected-origin-qmark-read-as-glob"]
 
 
@@ -74,6 +74,9 @@ def work(tasks, idx):
             over["origin"] = glob[0] if variant % 2 else [glob[0], "https://other.example"]
         if "X.expected-origin-has-trailing-slash" in xs:
             over["origin"] = req.origin + "/" if variant % 2 else [req.origin + "/"]
+        if "X.expected-origin-has-explicit-default-port" in xs:
+            dp = req.origin + (":443" if req.origin.startswith("https://") else ":80")
+            over["origin"] = dp if variant % 2 else [dp]
         if "X.expected-origin-has-surrounding-space" in xs:
             over["origin"] = " " + req.origin if variant % 2 else [req.origin + " "]
         if "X.alg-not-allowed" in xs or "X.alg-unregistered-not-allowed" in xs:
